@@ -31,7 +31,7 @@ def _regen(ctx):
 
 
 def run(ctx):
-    ok, log = vf.build_harness(ctx, ['c06'])
+    ok, log = vf.build_harness(ctx, ['c06', 'c06m'])
     if not ok:
         ctx.broken.append('harness does not build against /repo: ' + log[-400:])
         vf.finish(ctx, 'proof', [])
@@ -59,6 +59,29 @@ def run(ctx):
     if bad:
         ctx.broken.append('correspondence C06 (model check vs ExprSemanticsChecker.Check): %d of %d cases disagree' % (len(bad), len(terms)))
         ctx.first_disagreement = {'case_index': bad[0], 'input': json.loads(srcs[bad[0]]), 'model_term': terms[bad[0]][:4000]}
+    # matrix typing (rule_expression.go checkMatrix): K against the model Expr/MatrixTy.v and the
+    # end-to-end loosening oracle through Linter.Lint
+    nm = 150 if not ctx.thorough() else 3000
+    rc, out = vf.sh([os.path.join(vf.BIN, 'c06m'), '-seed', str(ctx.seed), '-n', str(nm), '-out', ctx.out], timeout=3000)
+    mfails = []
+    if rc != 0:
+        ctx.broken.append('harness c06m failed: ' + out[-400:])
+    else:
+        sm = vf.load_json(os.path.join(ctx.out, 'summary_matrix.json'))
+        mterms = vf.read_lines(os.path.join(ctx.out, 'cases_matrix.txt'))
+        mbad, merr = vf.coq_cases(ctx, 'C06m', ['Expr.MatrixTy', 'Expr.MatrixTyObs'], '(mtx * ty)', 'run_matrix_ty', mterms, shard=100, ordered=True)
+        if merr:
+            ctx.broken.append('matrix-typing cases did not evaluate: ' + merr[-400:])
+        if mbad:
+            ctx.broken.append('correspondence C06/matrix (model matrix_ty vs RuleExpression.checkMatrix): %d of %d matrices disagree' % (len(mbad), len(mterms)))
+            ctx.first_disagreement = {'case': mterms[mbad[0]][:3000]}
+        mfails = sm['oracle_failures']
+        s['evaluations'] += sm['evaluations']
+        s['distinct_nontrivial'] += sm['distinct_nontrivial']
+        s['distribution'].update({'matrix_' + k: v for k, v in sm['distribution'].items()})
+        s['samples'] = s['samples'] + sm['samples'][:1]
+        s['rule'] += ' | ' + sm['rule']
+        ctx.coverage['matrix_traces_validated'] = len(mterms)
     ctx.coverage.update({
         'obligations': nthm, 'discharged': ndis,
         'evaluations': s['evaluations'], 'distinct_nontrivial': s['distinct_nontrivial'],
@@ -67,7 +90,7 @@ def run(ctx):
         'accepted_pairs': s['extra'].get('accepted_pairs'),
         'exhaustive': False,
     })
-    vf.finish(ctx, 'proof', s['oracle_failures'])
+    vf.finish(ctx, 'proof', s['oracle_failures'] + mfails)
 
 
 def replay(path):
@@ -75,4 +98,11 @@ def replay(path):
     ok, log = vf.build_harness(ctx, ['c06'])
     if not ok:
         print(log); return 2
+    try:
+        j = json.load(open(path))
+    except Exception:
+        j = {}
+    if 'loosened_workflow' in j:
+        vf.build_harness(ctx, ['c06m'])
+        return subprocess.call([os.path.join(vf.BIN, 'c06m'), '-replay', path])
     return subprocess.call([os.path.join(vf.BIN, 'c06'), '-replay', path])
